@@ -2180,7 +2180,7 @@ def run(tier):
     rn = Runner(ck)
     r = ck.rng
     quick = tier == "quick"
-    n_base = 60 if quick else 1000
+    n_base = 60 if quick else 700
     n_double = 6 if quick else 12
     n_allsites = 6 if quick else 100      # base schemas on which every operator is applied at every site
     n_raw = 500 if quick else 15000
